@@ -57,6 +57,7 @@ class Contract:
         self.pre = ci.methods.get('pre')
         self.post = ci.methods.get('post')
         self.raises = ci.methods.get('raises')
+        self.decreases = ci.methods.get('decreases')   # termination measure (tuple), see seqs.lex_less
 
     @property
     def short(self) -> str:
@@ -199,6 +200,18 @@ class Explorer:
             raise InterpError(f'{fn.qualname} must return a dict of named clauses')
         return r
 
+    def _measure(self, P: Path, fn: FunctionInfo, bound: dict):
+        kw = {}
+        for a in fn.node.args.args:
+            n = a.arg
+            if n in bound:
+                kw[n] = bound[n]
+            elif n == 'self':
+                kw[n] = None
+            else:
+                raise InterpError(f'{fn.qualname}: measure parameter {n} not among the target parameters')
+        return P.call_function(FuncV(fn), [], kw, force_inline=True)
+
     def bind_target(self, P: Path, info: FunctionInfo, args, kwargs) -> dict:
         fr = Frame(info.module, info, info.cls)
         P.bind_args(info.node.args, args, kwargs, fr, info.qualname, Frame(info.module, cls=info.cls))
@@ -216,6 +229,12 @@ class Explorer:
                 cond = P.truthy(cond)
                 P.oblige(f'pre@{short}[{k}]', 'pre', cond)
                 P.assume(cond, fact=True)
+        cur = self.current
+        if c.decreases is not None and cur is not None and cur.decreases is not None and getattr(P, 'bound', None):
+            # a call inside a group of (mutually) recursive contracted functions: the measure decreases
+            m_new = self._measure(P, c.decreases, bound)
+            m_old = self._measure(P, cur.decreases, P.bound)
+            P.oblige(f'decreases@{short}', 'decreases', seqs.lex_less(P, m_new, m_old))
         if c.raises is not None:
             for ename, cond in self._call_spec(P, c.raises, bound).items():
                 cond = P.truthy(cond)
